@@ -424,6 +424,9 @@ def first_match_rule(rep, prog, cfg):
         from ..facts import const_int, op_const
         b = bs[0]
         lens = {t["dest"]["l"] for bb, t in b.calls() if any(n in (F + "fields_len", IT + "count", EX + "len") for n in callee_names(t))}
+        # `self.fields().next().is_none()`: "no field remains" asked of the hole-skipping iterator itself
+        firsts = {t["dest"]["l"] for bb, t in b.calls() if IT + "next" in callee_names(t)}
+        fl_e = Flow(b)
 
         def atom_of(kind, bb, obj):
             if kind == "call":
@@ -436,6 +439,10 @@ def first_match_rule(rep, prog, cfg):
                 if any(n.endswith("Option::<T>::is_none") or n.endswith("Option::is_none") for n in ns) and obj["args"] and \
                         ref_field_of_local(b, op_local(obj["args"][0])) == "binary":
                     return ("B", True)
+                if any(n.rsplit("::", 1)[-1] in ("is_none", "is_some") and "Option" in n for n in ns) and obj["args"] and op_local(obj["args"][0]) is not None:
+                    lv, vis = fl_e.sources([op_local(obj["args"][0])], through_call=identity_through, follow_mut=False)
+                    if any(x[0] == "call" and b.blocks[x[1]]["t"]["dest"]["l"] in firsts for x in lv) or (vis & firsts):
+                        return ("E", any(n.endswith("is_some") for n in ns))
                 return None
             rv = obj["rv"]
             if rv["op"] not in ("Eq", "Ne"):
